@@ -278,3 +278,43 @@ func recvExpr(call *ast.CallExpr) ast.Expr {
 	}
 	return nil
 }
+
+// errNilCmp recognises `X != nil` / `X == nil` (anywhere inside cond) where X
+// has type error; it reports which comparison was found.
+func errNilCmp(info *types.Info, cond ast.Expr, op token.Token) bool {
+	found := false
+	ast.Inspect(cond, func(n ast.Node) bool {
+		be, ok := n.(*ast.BinaryExpr)
+		if !ok || be.Op != op {
+			return true
+		}
+		for _, pair := range [][2]ast.Expr{{be.X, be.Y}, {be.Y, be.X}} {
+			if !isNilIdent(info, pair[1]) {
+				continue
+			}
+			if tv, ok := info.Types[pair[0]]; ok && tv.Type != nil && types.Identical(tv.Type, types.Universe.Lookup("error").Type()) {
+				found = true
+			}
+		}
+		return true
+	})
+	return found
+}
+
+// fieldNilCmp recognises `<expr>.<field> op nil` inside cond.
+func fieldNilCmp(info *types.Info, cond ast.Expr, field string, op token.Token) bool {
+	found := false
+	ast.Inspect(cond, func(n ast.Node) bool {
+		be, ok := n.(*ast.BinaryExpr)
+		if !ok || be.Op != op {
+			return true
+		}
+		for _, pair := range [][2]ast.Expr{{be.X, be.Y}, {be.Y, be.X}} {
+			if se, ok := ast.Unparen(pair[0]).(*ast.SelectorExpr); ok && se.Sel.Name == field && isNilIdent(info, pair[1]) {
+				found = true
+			}
+		}
+		return true
+	})
+	return found
+}
